@@ -165,6 +165,74 @@ def jitter_case(rng, mem):
     return [cfg, "", ops]
 
 
+def lts_frames(rng, frag, nseg):
+    """frames that close one segment per group: K, P, [A], P one fragment later; the next K reaps"""
+    step = TICKS * frag
+    t = rng.choice([0, 5000, 123456])
+    fs = []
+    for _ in range(nseg):
+        fs.append([1, t, t, payload(rng, 1)])
+        fs.append([2, t + step // 2, t + step // 2, payload(rng, 2, rng.random() < 0.1)])
+        if rng.random() < 0.4:
+            fs.append([0, t + step // 2, t + step // 2, payload(rng, 0)])
+        fs.append([2, t + step, t + step, payload(rng, 2)])
+        t += step + 3600
+    fs.append([1, t, t, payload(rng, 1)])
+    return fs
+
+
+def lts_case(rng, mem, shape):
+    """schedules of one writer and several fetchers: ( 0 ) writer frame, ( 1 id seq ) lookup, ( 2 id ) copy"""
+    frag = rng.choice([1, 2, 5])
+    cfg = gen_cfg(rng, frag, mem)
+    nseg = rng.randint(5, 9)
+    fs = lts_frames(rng, frag, nseg)
+    per = len(fs) / (nseg + 0.0)
+    sched = []
+    if shape == "hold":
+        # let k segments close, look one of the listed numbers up, push frames across 1..3 rollovers, then copy
+        k = rng.randint(3, nseg - 2)
+        nw = 0
+        while nw < len(fs) and sum(1 for f in fs[:nw] if f[0] == 1) < k + 1:
+            sched.append([0]); nw += 1
+        want = rng.choice([k - 2, k - 2, k - 1, k])
+        sched.append([1, 0, want])
+        if rng.random() < 0.4:
+            sched.append([1, 1, rng.choice([k - 2, k - 1, k, k + 1, 0])])
+        for _ in range(int(per * rng.choice([1, 2, 3])) + 1):
+            sched.append([0])
+        sched.append([2, 0])
+        for _ in range(rng.randint(0, 6)):
+            sched.append([0])
+        sched.append([2, 1])
+        sched += [[0]] * rng.randint(0, len(fs))
+    elif shape == "quick":
+        # the opposite order: lookup and copy back to back between frames
+        fid = 0
+        for i in range(len(fs)):
+            sched.append([0])
+            if rng.random() < 0.3:
+                est = sum(1 for f in fs[:i + 1] if f[0] == 1) - 1
+                sched.append([1, fid, max(0, est - rng.choice([0, 1, 2, 3, 4]))])
+                sched.append([2, fid])
+                fid += 1
+    else:
+        fid = 0
+        nw = 0
+        live = []
+        for _ in range(rng.randint(20, 3 * len(fs))):
+            r = rng.random()
+            if r < 0.55:
+                sched.append([0]); nw += 1
+            elif r < 0.78:
+                est = sum(1 for f in fs[:min(nw, len(fs))] if f[0] == 1) - 1
+                sched.append([1, fid, max(0, est - rng.choice([0, 1, 2, 2, 3, 4]))])
+                live.append(fid); fid += 1
+            elif live:
+                sched.append([2, live.pop(rng.randrange(len(live))) if rng.random() < 0.8 else rng.randrange(fid)])
+    return [cfg, fs, sched]
+
+
 def rollover_case(rng, mem, frag, extra):
     """fetch a reader and a playlist, roll the window over [extra] more times, then read them"""
     cfg = gen_cfg(rng, frag, mem)
@@ -253,6 +321,15 @@ def run(ck):
     bc += [jitter_case(rng, rng.random() < 0.5) for _ in range(400 if big else 40)]
     ck.stream("thresholds", bc, "C10_run", "C10", "C10_ok", nontrivial=lambda c: len(c[2]) >= 10,
               sig=lambda c, e, o: "hls-threshold-" + ("memory" if c[0][2] else "disk"))
+    # 2c. interleavings of fetches with rollover, replayed with the schedule controller on the real lock:
+    #     a fetcher parked at hls.segment.get holds the read lock, the writer must wait for it
+    lc = []
+    for shape, k in (("hold", 24), ("quick", 8), ("random", 28)):
+        for _ in range(k * (8 if big else 1)):
+            lc.append(lts_case(rng, rng.random() < 0.5, shape))
+    ck.stream("fetch-rollover-schedules", lc, "C10_lts_run", "C10_lts", "C10_lts_ok",
+              nontrivial=lambda c: any(l[0] == 1 for l in c[2]) and any(l[0] == 2 for l in c[2]),
+              sig=lambda c, e, o: "hls-fetch-vs-rollover-" + ("memory" if c[0][2] else "disk"))
     # 3. the float reformulations and "%.3f"
     fl = []
     for nfr in (-1, 0, 1, 2, 5, 10, 600):
@@ -287,12 +364,14 @@ def run(ck):
              "and re-read) and Close; after every operation playlist text + parsed view, resolvable numbers, files on disk and the demultiplexed "
              "(and re-multiplexed, byte-compared) content of each newly listed segment are compared with the extracted model and judged by the "
              "oracle of C10_model_passes; non-trivial = at least 8 frames spanning >= 4 fragments with >= 4 key frames or audio; plus the explicit "
-             "fetch / 1..6 rollovers / read schedule, the float64 and %.3f reformulations on boundary, tie and random values, and the D35 witness",
+             "fetch / 1..6 rollovers / read schedule, the float64 and %.3f reformulations on boundary, tie and random values, the D35 witness, "
+             "and schedules of one writer and several fetchers (lookup, frames across 1..3 rollovers, copy; back-to-back; random) replayed on the "
+             "real RW lock with the schedule controller: fetch results and the writer-blocked trace judged by the oracle of C10_lts_model_passes",
         trusted=["TS bytes of a segment are an opaque function of its frame list (mpegts.Writer, C09): the harness demultiplexes a segment "
                  "and checks that re-multiplexing with the real Writer reproduces the bytes",
                  "float64 division/comparison and fmt %.3f as modelled by fl_div90k/millis (validated by the float stream every run)",
                  "POSIX unlink semantics for disk-mode readers (an open file stays readable after os.Remove)",
                  "sync.Pool returns any free buffer or a new one (c_pick); bytes.Buffer capacity 512 KiB not exceeded in the aliasing model"],
         assumptions=["0 <= pts,dts < 2^33 and sample rate > 0 (wf)", "NAL types 1 and 5, AAC-LC ADTS headers",
-                     "sequential histories: fetches, playlist calls and frames are not concurrent (the RW lock is not modelled)",
+                     "concurrency at frame granularity: a frame is atomic for fetchers (everything they see changes under the write lock); M3u8 calls are sequential",
                      "segment_starts_with_key holds for segments not opened by the audio-driven reap (D35 known finding)"])
